@@ -2,6 +2,7 @@ import St4sd.Model.Ini
 import St4sd.Gen.C19
 import St4sd.Lemmas.C19
 import St4sd.Lemmas.C19Names
+import St4sd.Lemmas.C19Float
 /-!
 # C19 — The legacy configuration format round-trips an instance
 
@@ -414,5 +415,113 @@ example : parseOutputStages " stage2 ,stage10,, Stage3".toList = some [2, 10, 3]
 example : stageFileIndex "stage12.instance.conf".toList = some 12 ∧ stageIndex "STAGE101".toList = some 101 := by decide
 
 end Names
+
+/-! ## Numbers written as text (`Model/IniFloat.lean`): the status section
+
+A float field of the legacy files is the text `str(value)`; the reader applies `float(text)`.  On the level of
+decimal literals (CPython's `float(repr(x)) == x` is the trusted step to floats) the written text is read back
+as the SAME literal, whatever the number of fraction digits, with or without exponent. -/
+section Numbers
+open St4sd.IniFloat St4sd.IniNames
+
+/-- `float(str(x))` has the literal of `x`: for EVERY canonical literal (sign, any number of integer and
+fraction digits, optional exponent), the text that `_dump_status` writes for a stage weight is parsed by
+`parse_status` to the same literal. -/
+theorem status_weight_roundtrip (w : Lit) (h : canonical w = true) : parseWeight (printWeight w) = some w :=
+  parseWeight_printWeight w (canonical_wf w h)
+
+/-- two different canonical literals are never written as the same text -/
+theorem status_weight_text_injective (a b : Lit) (ha : canonical a = true) (hb : canonical b = true)
+    (h : printWeight a = printWeight b) : a = b := by
+  have h1 := status_weight_roundtrip a ha
+  rw [h, status_weight_roundtrip b hb] at h1
+  exact (Option.some.inj h1).symm
+
+/-- One `STAGE<i>` section of `status.conf` (stage weight of any precision, status script with arguments and
+references) is read back as the stage that was written. -/
+theorem status_stage_roundtrip (st : Stage) (h : stageOk st = true) : parseStage (dumpStage st) = some st := by
+  obtain ⟨i, w, e⟩ := st
+  unfold stageOk at h
+  simp only [Bool.and_eq_true] at h
+  obtain ⟨hw, he⟩ := h
+  have h1 : stageIndex (dumpStage ⟨i, w, e⟩).1 = some i := stage_section_roundtrip i
+  have h2 : readWeight (get kWeight (dumpStage ⟨i, w, e⟩).2) = some w := by
+    simp only [dumpStage, get_weight_lines]
+    cases w with
+    | none => rfl
+    | some w =>
+      simp only at hw
+      simp only [Option.map_some, readWeight, status_weight_roundtrip w hw]
+  have h3 : readExe (dumpStage ⟨i, w, e⟩).2 = e := by
+    simp only [dumpStage]
+    apply readExe_lines
+    intro x hx
+    subst hx
+    simp only [Bool.and_eq_true, Bool.not_eq_true'] at he
+    exact he
+  simp only [parseStage, h1, h2, h3]
+
+/-- The whole status section: every list of stages (any stage indices, weights of any precision, proper or
+improper sums) is read back as the same list. -/
+theorem status_section_roundtrip (l : List Stage) (h : ∀ st ∈ l, stageOk st = true) :
+    parseStatus (dumpStatus l) = some l := by
+  induction l with
+  | nil => rfl
+  | cons st r ih =>
+    have h1 := status_stage_roundtrip st (h st List.mem_cons_self)
+    have h2 := ih (fun x hx => h x (List.mem_cons_of_mem _ hx))
+    simp only [dumpStatus, List.map_cons, parseStatus, h1]
+    simp only [dumpStatus] at h2
+    simp only [h2]
+
+private theorem fixed2_wf (w : Lit) (h : wf w = true) : wf (fixed2 w) = true := by
+  obtain ⟨hi, hf, he⟩ := wf_parts w h
+  have h3 : (match w.exp with | none => true | some (_, d) => digitsOk d) = true := by
+    cases hx : w.exp with
+    | none => rfl
+    | some sd => obtain ⟨s, d⟩ := sd; rw [hx] at he; exact he
+  unfold wf fixed2
+  simp only [Bool.and_eq_true]
+  refine ⟨⟨hi, ?_⟩, h3⟩
+  rw [List.all_eq_true]
+  intro c hc
+  rcases List.mem_append.mp (List.mem_of_mem_take hc) with h1 | h1
+  · cases hfr : w.frac with
+    | none => rw [hfr] at h1; simp at h1
+    | some d =>
+      rw [hfr] at h1
+      exact List.all_eq_true.mp (hf d hfr) c h1
+  · have : c = '0' := by simpa using h1
+    subst this; decide
+
+/-- A printer with a fixed precision of two fraction digits is NOT a round trip: every canonical literal that
+has more than two fraction digits is read back as a different literal. -/
+theorem fixed_precision_loses_digits (w : Lit) (h : canonical w = true) (f : S) (hf : w.frac = some f)
+    (h2 : 2 < f.length) : parseWeight (printFixed2 w) ≠ some w := by
+  have hwf := fixed2_wf w (canonical_wf w h)
+  unfold printFixed2
+  rw [parseWeight_printWeight _ hwf]
+  intro heq
+  have := congrArg Lit.frac (Option.some.inj heq)
+  simp only [fixed2, hf, Option.getD_some] at this
+  have hl := congrArg List.length (Option.some.inj this)
+  simp only [List.length_take, List.length_append, List.length_cons, List.length_nil] at hl
+  omega
+
+-- non-vacuity: canonical literals of every shape `str()` produces, and a status section with a script
+example : (["0.005", "1.0", "0.30000000000000004", "1e-05", "1.5e+300", "-0.0", "3", "100.0", "5e-324",
+            "1.7976931348623157e+308", "0.333", "123456789.125"].map fun t =>
+    (parseWeight t.toList).map canonical) = List.replicate 12 (some true) := by decide
+example : (["0.50", "007.5", "1.0e-05", "1e-5", "12e+20", ".5", "5."].map fun t =>
+    (parseWeight t.toList).map canonical) = List.replicate 7 (some false) := by decide
+example : (["", "abc", "1e", "--1", ".", "e5", "1.2.3", "1e+", "0x10", " 1", "1 "].map fun t =>
+    parseWeight t.toList) = List.replicate 11 none := by decide
+example : stageOk ⟨10, some ⟨false, ['0'], some ['0', '0', '5'], none⟩,
+    some ⟨"bin/status.py".toList, "-v %(gStr)s".toList, ["stage0.a:ref".toList, "data/x.yaml:copy".toList]⟩⟩ = true := by
+  decide
+example : dumpStage ⟨10, some ⟨false, ['0'], some ['0', '0', '5'], none⟩, none⟩
+    = ("STAGE10".toList, [("stage-weight".toList, "0.005".toList)]) := by decide
+
+end Numbers
 
 end St4sd.C19
